@@ -36,6 +36,13 @@ class Model:
     def iter_element(self, it: Any, it_t: T.Term) -> Any:
         if isinstance(it, list) and len(it) == 1 and isinstance(it[0], Each):
             return it[0].value
+        if isinstance(it, GroupBy):
+            f = it.frame
+            kts = tuple(f.col(k) for k in it.keys)
+            gk = tuple(("gbkey", kt) for kt in kts)
+            g = f.derive(rows=T.and_(f.rows, *[T.cmp("==", kt, k) for kt, k in zip(kts, gk)]))
+            self.log("groupby-iter", None, keys=list(it.keys), key_terms=kts, src_ctx=f.ctx(), dst=g.obj)
+            return PyTuple([gk[0] if len(gk) == 1 else PyTuple(list(gk)), g])
         if hasattr(it, "row_frame"):
             return Obj("row", attrs={"__row_of__": ("row",), "__frame__": it.row_frame})
         if isinstance(it, tuple) and it and it[0] == "dict_items":
@@ -260,7 +267,7 @@ class Model:
         return r
 
     def _boolish(self, t: T.Term) -> bool:
-        return isinstance(t, tuple) and t and (t[0] in ("cmp", "eq", "ne", "and", "or", "not", "in", "cmpx", "isnull", "strmatch", "truthy", "notnull")
+        return isinstance(t, tuple) and t and (t[0] in ("cmp", "eq", "ne", "and", "or", "not", "in", "cmpx", "isnull", "strmatch", "truthy", "notnull", "duplicated")
                                                or (t[0] == "const" and isinstance(t[1], bool)))
 
     def compare(self, op: str, a: Any, b: Any, node) -> Any:
@@ -269,6 +276,10 @@ class Model:
             return T.not_(r) if op == "NotIn" else r
         if isinstance(a, (int, float, str)) and isinstance(b, (int, float, str)) and type(a) == type(b):
             return {"<": a < b, "<=": a <= b, ">": a > b, ">=": a >= b, "==": a == b, "!=": a != b}[_CMP[op]]
+        if isinstance(a, (list, dict, set)) and isinstance(b, (list, dict, set)) and op in ("Eq", "NotEq") and not a and not b:
+            return op == "Eq"
+        if isinstance(a, (list, dict, set)) and isinstance(b, (list, dict, set)) and op in ("Eq", "NotEq") and (not a) != (not b):
+            return op == "NotEq"
         if (a is None or b is None) and not isinstance(a, Ser) and not isinstance(b, Ser):
             other = b if a is None else a
             if other is None:
